@@ -110,3 +110,66 @@ def run(c, ctx, real_parse):
     if violate:
         classes.append('staged-base:must-fail-stage')
     return outcome(classes=classes, nontrivial=True, fp='stbase ' + repr(c), dev=devs, monitors=mon, sample=sample)
+
+
+# ------------------------------------------------------------------------------------------------ sourced file with a custom unit of the host's name
+# "a sourced file is parsed on its own": it may define a custom unit whose NAME the host (the main text, or the base
+# environment) also uses, with another size.  Values the sourced file exposes in ordinary units arrive by injection / import
+# exactly as the file alone computes them; the host keeps its own unit.
+
+def gen_srcunit(rng):
+    return dict(stage='srcunit', host_k=rng.choice([2.0, 5.0, 0.5]), remote_k=rng.choice([1.0, 3.0, 20.0]), w=rng.choice([3.0, 4.0, 7.0]),
+                host=rng.choice(['main-text', 'main-text', 'base-environment', 'no-custom-unit', 'other-name', 'unit-after-source']),
+                count=rng.choice([4, 12]))
+
+
+def run_srcunit(c, ctx, real_parse):
+    import os, tempfile, shutil
+    devs, classes = [], ['sourced-file-defines-a-custom-unit', 'sourced-file-custom-unit:host-' + c['host']]
+    mon = dict(sourced_custom_unit_programs=1)
+    hk, rk, w = c['host_k'], c['remote_k'], c['w']
+    gap_mm = w * rk * 10.0                      # w [len] with [len] = rk cm, expressed in mm
+    remote = ['$unit len = %r cm' % rk, 'width float = %r [len]' % w, 'gap float = 5 mm', 'gap = {?width}', 'count int = %d' % c['count']]
+    d = tempfile.mkdtemp(prefix='c17su_')
+    try:
+        path = os.path.join(d, 'parts.dip')
+        with open(path, 'w') as f:
+            f.write('\n'.join(remote) + '\n')
+        unit_line = {'main-text': '$unit len = %r m' % hk, 'base-environment': None, 'no-custom-unit': None, 'other-name': '$unit span = %r m' % hk,
+                     'unit-after-source': None}[c['host']]
+        uname = 'span' if c['host'] == 'other-name' else 'len'
+        has_unit = c['host'] != 'no-custom-unit'
+        main = ([unit_line] if unit_line else []) + ['$source parts = %s' % path]
+        if c['host'] == 'unit-after-source':
+            main.append('$unit len = %r m' % hk)
+        if has_unit:
+            main.append('room float = 4 [%s]' % uname)
+        main += ['slot float = {parts?gap}', 'rail float = 1 m', 'rail = {parts?gap}', 'n int = {parts?count}', 'box', '  {parts?gap}']
+        text = '\n'.join(main) + '\n'
+        base = None
+        if c['host'] == 'base-environment':
+            kind, base = real_parse(ctx, '$unit len = %r m\n' % hk, tag='su0')
+            if kind != 'ok':
+                devs.append(dev('sourced-custom-unit:base-text-rejected', dict(exc=repr(base)[:200])))
+                return outcome(classes=classes, nontrivial=True, fp='srcunit ' + repr(c), dev=devs, monitors=mon, sample=dict(main=text, remote=remote))
+        kind, env = real_parse(ctx, text, base=base, tag='su')
+        sample = dict(main=text, remote='\n'.join(remote), base='$unit len = %r m' % hk if base is not None else None)
+        if kind != 'ok':
+            devs.append(dev('sourced-custom-unit:valid-program-rejected(host-%s)' % c['host'], dict(sample, exc=repr(env)[:200])))
+        else:
+            from scinumtools.dip.settings import Format
+            dd = env.data(Format.TUPLE)
+            exp = {'slot': (gap_mm, 'mm'), 'rail': (gap_mm / 1000.0, 'm'), 'n': (c['count'], None), 'box.gap': (gap_mm, 'mm')}
+            if has_unit:
+                exp['room'] = (4.0, '[%s]' % uname)
+            bad = {}
+            for kk, (ev, eu) in exp.items():
+                o = dd.get(kk)
+                ov, ou = (o[0], o[1]) if isinstance(o, tuple) else (o, None)
+                if o is None or ou != eu or not close(plain(ov), ev, 1e-9):
+                    bad[kk] = dict(observed=repr(o), expected=(ev, eu))
+            if bad or sorted(dd) != sorted(exp):
+                devs.append(dev('sourced-custom-unit:delivered-values-differ(host-%s)' % c['host'], dict(sample, differing=bad, keys=sorted(dd))))
+    finally:
+        shutil.rmtree(d, ignore_errors=True)
+    return outcome(classes=classes, nontrivial=True, fp='srcunit ' + repr(c), dev=devs, monitors=mon, sample=dict(main=text, remote='\n'.join(remote)))
